@@ -6,6 +6,7 @@ Out-of-range reads return the index itself ("not contained") and out-of-range wr
 dropped; the Rust code would panic there.  All theorems are stated under the guard that the
 indices are in range (the harness never leaves it, and `oob` reports whether an op would).
 -/
+import MVoro.Model.Loop
 namespace MVoro
 
 structure Cycle where
@@ -81,4 +82,11 @@ def walk : Nat → Cycle → Nat → List Nat
 def closedWalk (c : Cycle) : List Nat := walk (c.len + 1) c c.start
 
 end Cycle
+
+/-- state of `SimpleCycle2Iterator`: the borrowed cycle and the entry it yields next -/
+structure CycleIter where
+  simple_cycle : Cycle
+  next : Nat
+deriving Repr, DecidableEq, Inhabited
+
 end MVoro
